@@ -1,7 +1,7 @@
 SPECIFICATION Spec
-CONSTANTS NRules = 2  K = 2  MaxQ = 5
+CONSTANTS NRules = 3  K = 1  MaxQ = 3
   MutKeyNoPort = FALSE  MutKeyNoProto = FALSE  MutKeyNoV6 = FALSE  MutSuffixNoDot = FALSE  MutPortHi = FALSE
-  RulePool <- Pool  QueryPool <- Queries
+  RulePool <- Pool  QueryPool <- QueriesQ
 INVARIANT NoViolation
 VIEW View
 CHECK_DEADLOCK FALSE
